@@ -1237,6 +1237,14 @@ MUTANTS = [
 ]
 
 MUTANTS += [
+    dict(name='c14-seed4-remove-successor-drops-handler-task', prop='C14', clause='D5', edits=[(FG_H, """        my_aggregator.execute(&op_data);
+        // even though this operation does not cause a forward, if we are the handler, and
+        // a forward is scheduled, we may be the first to reach this point after the aggregator,
+        // and so should check for the task.
+        (void)enqueue_forwarding_task(op_data);
+        return true;""", """        my_aggregator.execute(&op_data);
+        return true;""")]),
+    dict(name='c13-seed4-push-handler-catches-bad-alloc-only', prop='C13', clause='D3', edits=[(CPQ_H, "                catch(...) {\n                    tmp->status.store(uintptr_t(FAILED), std::memory_order_release);", "                catch(const std::bad_alloc&) {\n                    tmp->status.store(uintptr_t(FAILED), std::memory_order_release);")]),
     dict(name='c04-seed4-state-copied-before-registration-without-grandparent', prop='C04', clause='D4', edits=[
         (TGC_CPP, """    } else {
         register_with(ctx, td); // Issues full fence
